@@ -713,7 +713,15 @@ def attribution(ck, ctx, rule="attribution"):
         if callee in APPLY:
             fi.observe("apply", bi, callee, ghost)
             return [(None, dict(ghost, **{"applied_" + APPLY[callee]: True}))]
-        if callee.endswith("BuildId as std::cmp::PartialEq>::eq"):
+        if callee.endswith("BuildId as std::cmp::PartialEq>::eq") or callee.endswith("BuildId as std::cmp::PartialEq>::ne") or (callee == "std::cmp::PartialEq::ne" and "BuildId" in ((t["args"][0].get("place") or {}).get("ty") or {}).get("s", "")):
+            a0, a1 = (fi._deref(vals, a) if a is not None and a[0] in ("ref", "cref") else a for a in args[:2])
+            same = (args[0] is not None and args[0] == args[1]) or (a0 is not None and a0 == a1)
+            is_ne = callee.endswith("ne")
+            if same:
+                # a value compared with itself: the answer is fixed, no mismatch can ever be seen here
+                return [(("b", not is_ne), ghost)]
+            return [(("b", not is_ne), ghost), (("b", is_ne), dict(ghost, mm=True))]
+        if False:
             return [(("b", True), ghost), (("b", False), dict(ghost, mm=True))]
         if callee.endswith("BuildId as std::cmp::PartialEq>::ne") or (callee == "std::cmp::PartialEq::ne" and "BuildId" in ((t["args"][0].get("place") or {}).get("ty") or {}).get("s", "")):
             return [(("b", False), ghost), (("b", True), dict(ghost, mm=True))]
